@@ -138,6 +138,11 @@ impl WriteAheadLog {
             (id, config.wal_dir.join(segment_file_name(id)))
         };
 
+        // A crash can leave a partially written entry at the end of the last segment. Drop it
+        // before appending: the reader stops at the first incomplete record, so anything
+        // written after it would be unrecoverable.
+        discard_torn_tail(&segment_path)?;
+
         let file = open_segment(&segment_path).await?;
         let current_size = file.metadata().await.map_err(map_io_error)?.len();
         let next_seq = match last_sequence_in_segments(&segments)? {
@@ -321,9 +326,39 @@ fn decode_header(header: &[u8; HEADER_LEN]) -> Result<(u64, u8, usize, u32)> {
 }
 
 fn read_entries_from_path(path: &Path) -> Result<Vec<WalEntry>> {
+    read_entries_and_valid_len(path).map(|(entries, _)| entries)
+}
+
+/// Truncate `path` to the end of its last complete entry (no-op if the file is missing or clean).
+fn discard_torn_tail(path: &Path) -> Result<()> {
+    let file_len = match std::fs::metadata(path) {
+        Ok(meta) => meta.len(),
+        Err(e) if e.kind() == io::ErrorKind::NotFound => return Ok(()),
+        Err(e) => return Err(map_io_error(e)),
+    };
+    let (_, valid_len) = read_entries_and_valid_len(path)?;
+    if valid_len < file_len {
+        warn!(
+            "Discarding {} bytes of incomplete WAL data at the end of {:?}",
+            file_len - valid_len,
+            path
+        );
+        let file = std::fs::OpenOptions::new()
+            .write(true)
+            .open(path)
+            .map_err(map_io_error)?;
+        file.set_len(valid_len).map_err(map_io_error)?;
+        file.sync_all().map_err(map_io_error)?;
+    }
+    Ok(())
+}
+
+/// Read the complete entries of a segment and the byte length they occupy.
+fn read_entries_and_valid_len(path: &Path) -> Result<(Vec<WalEntry>, u64)> {
     let file = StdFile::open(path).map_err(map_io_error)?;
     let mut reader = BufReader::new(file);
     let mut entries = Vec::new();
+    let mut valid_len = 0u64;
     loop {
         let mut header = [0u8; HEADER_LEN];
         match read_exact_or_eof(&mut reader, &mut header) {
@@ -373,13 +408,14 @@ fn read_entries_from_path(path: &Path) -> Result<Vec<WalEntry>> {
             );
             break;
         }
+        valid_len += (HEADER_LEN + payload.len()) as u64;
         entries.push(WalEntry {
             seq,
             flags,
             payload,
         });
     }
-    Ok(entries)
+    Ok((entries, valid_len))
 }
 
 fn read_exact_or_eof<R: Read>(reader: &mut R, buffer: &mut [u8]) -> Result<bool> {
